@@ -616,7 +616,7 @@ def stateAtWith (init : List Int) (es : List Elem) (off t : Int) : Res Nat :=
   | some last =>
     let period := last - off
     if period = 0 then .error .zeroDiv else
-    let tm := (t - off) % period + off
+    let tm := (t - off).fmod period + off      -- Python `%`: sign of the divisor (as CRModel.TrafficLight.stateAt)
     let i : Int := (argmaxLt tm init : Int) - 1
     match pyGet? es i with
     | none => .error .index
